@@ -87,6 +87,7 @@ def draw_cfg(rng, profile, tier):
     cfg['kinds'] = kw
     cfg['probes'] = p.get('probes', {})
     cfg['profile'] = p.get('name', '?')
+    cfg['tier'] = tier
     return cfg
 
 
